@@ -165,6 +165,9 @@ def run(facts, res):
                     root = facts.body(b.parent) if b.kind == "closure" else b
                     if root not in appliers:
                         appliers.append(root)
+    if R.body("applier") is not None:
+        # the function that applies a whole block (it may hand each record to a private helper that does the insertion)
+        appliers = [R.body("applier")]
     res.floor("A1", "functions applying remote changes (unvalidated_add callers)", len(appliers), 1)
 
     # ------------------------------------------------------------------ A1
@@ -215,13 +218,20 @@ def run(facts, res):
         check_ready_earned(b, bi, facts, res)
 
     # ------------------------------------------------------------------ A3
+    seen_tr_ = set()
     for (b, bi, st, v) in all_writes:
         g = status_guard(b, bi, facts)
+        if g is None and b.kind != "closure" and not b.public and b.impl_trait is None:
+            # a private setter (`fn block(delta: &mut Delta) -> Status`): the state it is called in is the state at its call sites
+            gs = {status_guard(cs.body, cs.block, facts) for cs in cg.callers_of(b.path) if cs.body.path != b.path}
+            if len(gs) == 1 and None not in gs:
+                g = gs.pop()
+        seen_tr_.add((g, v))
         res.instance("A3", "%s: %s -> %s" % (b.path, g, v), b.loc(st.line))
         if (g, v) not in LEGAL or g is None:
             res.violation("A3", "%s|illegal-transition:%s->%s" % (b.path, g, v),
                           "%s writes status %s under guard state %s: not in the legal transition table" % (b.path, v, g), b.loc(st.line))
-    seen_tr = {(status_guard(b, bi, facts), v) for (b, bi, st, v) in all_writes}
+    seen_tr = seen_tr_
     for tr in (("Pending", "Ready"), ("Pending", "Blocked"), ("Blocked", "Pending"), ("Ready", "Applied")):
         res.floor("A3", "transition %s->%s present" % tr, 1 if tr in seen_tr else 0, 1)
     inits = []
